@@ -8,6 +8,10 @@ CR/LF inside, starts with "PRIVMSG|NOTICE <user> :"; the message parts -- UTF-8 
 de-quoted by the monitor's own RFC-CTCP dequoter, as a receiver would -- concatenated and stripped of
 whitespace equal the text stripped of whitespace.  ctcpQuote/lowQuote are checked by round trip.
 
+A fifth of the cases run with `lineRate` set: the lines then leave through the client's rate-limit queue,
+driven by a task.Clock put in place of the module's `reactor` for the call (restored in `finally`); the
+same checks are applied to the bytes in *arrival order* once the queue has drained (bounded number of ticks).
+
 Guards: "whitespace" is everything str.isspace() accepts (textwrap drops such chunks at line edges);
 a ValueError is accepted when the limit leaves no room for any payload; the length verdict is only
 taken when the room (limit - prefix - CRLF) can hold the largest single character of the text on the
@@ -31,7 +35,8 @@ ASSUMPTIONS = ["receiver model: lines are split at CRLF, UTF-8 decoded, low-leve
                "specification (DLE 0/n/r/DLE) by the monitor's own dequoter"]
 SHARDS = {"quick": 4, "thorough": 16}
 FLOORS = {"lines_checked": 50000, "multi_line_messages": 5000, "length_verdicts": 10000,
-          "content_comparisons": 15000, "quote_roundtrips": 4000, "non_ascii_texts": 3000}
+          "content_comparisons": 15000, "quote_roundtrips": 4000, "non_ascii_texts": 3000,
+          "rate_limited_messages": 4000, "rate_limited_messages_of_3_or_more_lines": 1500, "rate_limited_lines_sent_by_timer": 20000}
 READY = True
 
 M_QUOTE = "\x10"
@@ -126,10 +131,10 @@ class Recorder:
         self.disconnecting = True
 
 
-def make_client(irc):
+def make_client(irc, rate=None):
     class Client(irc.IRCClient):
         performLogin = 0
-        lineRate = None
+        lineRate = rate
 
     c = Client()
     t = Recorder()
@@ -142,14 +147,36 @@ def wire_len(ch):
     return 2 if ch in "\x00\x10\n\r" else len(ch.encode("utf-8"))
 
 
-def verdict(irc, kind, user, text, limit):
+def send(irc, c, t, kind, user, text, limit, rate, info):
+    """Call msg()/notice(); with a rate limit, drive the queue with a task.Clock until it is empty."""
+    if rate is None:
+        (c.msg if kind == "PRIVMSG" else c.notice)(user, text, limit)
+        return
+    from twisted.internet import task
+
+    clock = task.Clock()
+    saved = irc.reactor
+    irc.reactor = clock
+    try:
+        (c.msg if kind == "PRIVMSG" else c.notice)(user, text, limit)
+        info["sent_immediately"] = len(t.writes)
+        for _ in range(5000):  # bounded: one line per tick
+            if not clock.getDelayedCalls():
+                break
+            clock.advance(rate)
+        info["queue_drained"] = not clock.getDelayedCalls() and not c._queue
+    finally:
+        irc.reactor = saved
+
+
+def verdict(irc, kind, user, text, limit, rate=None):
     """None if every check passes; else (stage, details).  Also returns stats through details=None."""
-    c, t = make_client(irc)
+    c, t = make_client(irc, rate)
     prefix = ("%s %s :" % (kind, user)).encode("utf-8")
     room = limit - len(prefix) - 2
     info = {"room": room}
     try:
-        (c.msg if kind == "PRIVMSG" else c.notice)(user, text, limit)
+        send(irc, c, t, kind, user, text, limit, rate, info)
     except ValueError as e:
         if room <= 0:
             info["refused"] = True
@@ -159,6 +186,8 @@ def verdict(irc, kind, user, text, limit):
         return ("send-raises:" + type(e).__name__, {"exception": repr(e)[:300], "room": room}), info
     stream = b"".join(t.writes)
     info["writes"] = len(t.writes)
+    if rate is not None and not info.get("queue_drained"):
+        return ("rate-limit-queue-not-drained", {"writes": len(t.writes), "rate": rate}), info
     if room <= 0:
         return ("no-value-error-for-impossible-limit", {"room": room, "stream": stream[:300]}), info
     if stream and not stream.endswith(b"\r\n"):
@@ -201,10 +230,15 @@ def unquote_fold(text):
     return text.replace("\x00", "\x01").replace("\x10", "\x01")
 
 
-def check_msg(ctx, irc, kind, user, text, limit):
+def check_msg(ctx, irc, kind, user, text, limit, rate=None):
     ctx.evaluated()
-    v, info = verdict(irc, kind, user, text, limit)
+    v, info = verdict(irc, kind, user, text, limit, rate)
     ctx.count("messages_sent")
+    if rate is not None:
+        ctx.count("rate_limited_messages")
+        if info.get("lines", 0) >= 3:
+            ctx.count("rate_limited_messages_of_3_or_more_lines")
+        ctx.count("rate_limited_lines_sent_by_timer", max(0, info.get("writes", 0) - info.get("sent_immediately", 0)))
     ctx.count("lines_checked", info.get("lines", 0))
     if info.get("lines", 0) > 1:
         ctx.count("multi_line_messages")
@@ -223,16 +257,16 @@ def check_msg(ctx, irc, kind, user, text, limit):
         ctx.count("texts_with_nul_or_dle")
     ctx.maxi("lines_per_message", info.get("lines", 0))
     if info.get("lines", 0) > 1 or nonascii or any(not 0x20 <= ord(c) < 0x7F for c in text):
-        ctx.distinct((kind, user, text, limit))
+        ctx.distinct((kind, user, text, limit, rate))
     if v is None:
         return
     stage, det = v
     keys = ["irc-" + stage]
     what = {"irc-" + stage: "IRCClient.%s: %s" % ("msg" if kind == "PRIVMSG" else "notice", stage)}
     if stage == "line-over-limit":
-        a = nonascii and verdict(irc, kind, user, ascii_fold(text), limit)[0] is None
-        b = any(c in text for c in "\x00\x10") and verdict(irc, kind, user, unquote_fold(text), limit)[0] is None
-        ab = not a and not b and nonascii and verdict(irc, kind, user, unquote_fold(ascii_fold(text)), limit)[0] is None
+        a = nonascii and verdict(irc, kind, user, ascii_fold(text), limit, rate)[0] is None
+        b = any(c in text for c in "\x00\x10") and verdict(irc, kind, user, unquote_fold(text), limit, rate)[0] is None
+        ab = not a and not b and nonascii and verdict(irc, kind, user, unquote_fold(ascii_fold(text)), limit, rate)[0] is None
         ks = []
         if a or ab:
             ks.append("irc-limit-in-characters")
@@ -243,7 +277,8 @@ def check_msg(ctx, irc, kind, user, text, limit):
         if ks:
             keys = ks
             det["counterfactual"] = "passes with non-ASCII folded to 'x': %s; with NUL/DLE folded to SOH: %s; with both: %s" % (a, b, ab or (a and b))
-    det.update({"kind": kind, "user": user, "text_codepoints": [ord(c) for c in text], "text": text[:300], "limit": limit, "stage": stage})
+    det.update({"kind": kind, "user": user, "text_codepoints": [ord(c) for c in text], "text": text[:300], "limit": limit, "stage": stage,
+                "line_rate": rate})
     for k in keys:
         ctx.violation(k, what[k], det)
 
@@ -298,7 +333,7 @@ def run(ctx):
             k += 1
             if ctx.owns(k):
                 kind = ("PRIVMSG", "NOTICE")[k % 2]
-                check_msg(ctx, irc, kind, "#chan", text, len("%s #chan :" % kind) + 2 + room)
+                check_msg(ctx, irc, kind, "#chan", text, len("%s #chan :" % kind) + 2 + room, rate=(None, 1, 0.5)[k % 3])
                 ctx.count("grid_cases")
     # quoting: all strings of length <= 3 over the special characters
     strs = [""] + [a for a in SPECIAL] + [a + b for a in SPECIAL for b in SPECIAL] + [a + b + c for a in SPECIAL for b in SPECIAL for c in SPECIAL]
@@ -311,7 +346,7 @@ def run(ctx):
         user = rng.choice(USERS)
         text = gen_text(rng)
         limit = gen_limit(rng, len("%s %s :" % (kind, user)))
-        check_msg(ctx, irc, kind, user, text, limit)
+        check_msg(ctx, irc, kind, user, text, limit, rate=rng.choice((1, 2, 0.25)) if i % 5 == 0 else None)
         if i % 4 == 0:
             check_quote(ctx, irc, "".join(rng.choice(SPECIAL) if rng.random() < 0.6 else rng.choice(WORDCHARS + WIDE) for _ in range(rng.randrange(0, 30))))
         if i < 4 * ctx.nshards:
@@ -330,4 +365,4 @@ def replay(ctx, w):
     if "quote" in x:
         check_quote(ctx, irc, "".join(chr(c) for c in x["text_codepoints"]))
     else:
-        check_msg(ctx, irc, x["kind"], x["user"], "".join(chr(c) for c in x["text_codepoints"]), x["limit"])
+        check_msg(ctx, irc, x["kind"], x["user"], "".join(chr(c) for c in x["text_codepoints"]), x["limit"], rate=x.get("line_rate"))
